@@ -703,6 +703,11 @@ func (g *Gen) linkLine(s *gsess) string {
 	case "SVSNICK":
 		// only onto nicknames nobody (including the target) owns: use a fresh one
 		g.fresh++
+		if g.P.Extra && g.R.Intn(4) == 0 {
+			// the target's own nickname in another (or the same) capitalisation
+			n := g.anyNick()
+			return assemble(pfx, cmd, []string{n, g.caseVariant(n)}, true, "1425036445")
+		}
 		return assemble(pfx, cmd, []string{g.anyNick(), fmt.Sprintf("Guest%d", 70000+g.fresh)}, true, "1425036445")
 	case "TOPIC":
 		return assemble(pfx, cmd, []string{g.anyChan(), g.anyNick(), g.pick([]string{"0", "1425036445", "x", "-1"})}, true, g.pick([]string{"", "services topic"}))
